@@ -198,9 +198,20 @@ class Repo:
                 parts = parts[:-1]
             name = ".".join(parts)
             self.modules[name] = Module(name, rel, src, is_pkg)
-        for rel in self.overlay:
+        for rel in sorted(self.overlay):
             if not any(m.relpath == rel for m in self.modules.values()):
-                raise AnalysisError(f"overlay names unknown file {rel}")
+                # a file the variant adds (a patch that creates a module)
+                if not (rel.endswith(".py") and rel.startswith(PKG + os.sep)):
+                    raise AnalysisError(f"overlay names unknown file {rel}")
+                src = self.overlay[rel]
+                h.update(rel.encode())
+                h.update(src.encode())
+                parts = rel[:-3].split(os.sep)
+                is_pkg = parts[-1] == "__init__"
+                if is_pkg:
+                    parts = parts[:-1]
+                name = ".".join(parts)
+                self.modules[name] = Module(name, rel, src, is_pkg)
         self.digest = h.hexdigest()
 
     # -- lookup -------------------------------------------------------------
